@@ -270,6 +270,12 @@ func (fe *FnExec) applyContract(fr *frame, st *State, in ssa.Instruction, site s
 		return c
 	}
 	pos := in.Pos()
+	if con.Effect && fr.con != nil {
+		for _, er := range fr.con.EffectReqs {
+			ctx := fe.ctxFor(fr, st)
+			fe.oblige(fr, fmt.Sprintf("call[%s].effect:%s", site, er.Label), er.Props, st.pc, ctx.evalBool(er.X), pos, "effectful call ("+shortKey(con.Key)+") requires: "+er.Src)
+		}
+	}
 	fe.preCallInv(fr, st, site, full, fe.curArgTypes, pos)
 	for _, rq := range con.Requires {
 		g := mk(st, st).evalBool(rq.X)
